@@ -90,6 +90,10 @@ func (e *Encoder) Bytes() ([]byte, error) {
 	if e.mode == modeInitial {
 		e.appendDefaultMetadata()
 	}
+	if e.mode == modeDrawing {
+		// Emit the drawing ops that are still pending in the current run.
+		e.flushDrawOps()
+	}
 	return []byte(e.buf), nil
 }
 
